@@ -36,6 +36,7 @@ def step (s : Option St) (line : String) : Option St × String :=
       | ["adv", T, cur, cnt, rev] =>
         match unhex cur, cnt.toInt? with
         | some cur, some cnt =>
+          if cnt < 0 then (s, "err:args") else   -- parseScanArgs refuses a negative COUNT
           match advPage (getPop st T) cur cnt (rev == "1") with
           | some (ks, next) => (s, s!"keys={hexList ks} next={hexs next}")
           | none => (s, "bad-op")
@@ -50,6 +51,7 @@ def step (s : Option St) (line : String) : Option St × String :=
       | ["cscan", kind, raw, cur, cnt, rev] =>
         match unhex raw, unhex cur, cnt.toInt? with
         | some raw, some cur, some cnt =>
+          if cnt < 0 then (s, "err:args") else
           let (it, next) := collPage (getColl st (kind, raw)) cur cnt (rev == "1")
           (s, s!"items={hexList it} next={hexs next}")
         | _, _, _ => (s, "bad-op")
